@@ -12,6 +12,7 @@ import hashlib, json, math, os, random, re, time
 from concurrent.futures import ThreadPoolExecutor
 import vcommon as V
 
+READY = True
 PROPS = {
  'C16': dict(level='exploration', design='DESIGN.md 6 C16',
    text='Codec.tla is an independently written TLA+ reference (32-bit words as 16-bit limb pairs): signed-byte FNV-1a, '
